@@ -84,9 +84,14 @@ def Svc.pollReady (s : Svc) : Svc × Bool :=
   ({ s with registered := (Src.ucAvailable s.count s.cap s.registered).2, woken := false },
    (Src.ucAvailable s.count s.cap s.registered).1)
 
-/-- `AcceptorService::call` at time `now`: takes a guard (`conns.get()`), arms `sleep(timeout)` -/
-def Svc.call (s : Svc) (now : Nat) : Svc :=
-  { s with count := Src.ucInc s.count s.cap, futs := upd s.futs s.next (.alive (now + s.tmo)), next := s.next + 1 }
+/-- `AcceptorService::call` at time `now` on a service whose handshake timeout is `tmo`: takes a guard
+of the thread's counter (`conns.get()`), arms `sleep(tmo)`.  Every acceptor service built on a thread
+holds a handle on the same `MAX_CONN_COUNTER`; only the timeout is the service's own. -/
+def Svc.callT (s : Svc) (tmo now : Nat) : Svc :=
+  { s with count := Src.ucInc s.count s.cap, futs := upd s.futs s.next (.alive (now + tmo)), next := s.next + 1 }
+
+/-- `call` on the service the case was opened with (timeout `s.tmo`) -/
+def Svc.call (s : Svc) (now : Nat) : Svc := s.callT s.tmo now
 
 /-- drop of a `CounterGuard`: `dec`, which wakes the registered task iff the kernel says so -/
 def Svc.release (s : Svc) : Svc :=
@@ -121,6 +126,9 @@ def Svc.inProgress (s : Svc) : Nat := aliveBelow s.futs s.next
 inductive Op where
   | ready
   | call (now : Nat)
+  /-- a call through another service of the same thread (built from another factory / a clone), whose
+  handshake timeout is `tmo` -/
+  | callT (tmo now : Nat)
   | poll (k now : Nat) (hs : HsPoll)
   | drop (k : Nat)
 deriving Repr
@@ -128,6 +136,7 @@ deriving Repr
 def Svc.step (s : Svc) : Op → Svc
   | .ready => s.pollReady.1
   | .call now => s.call now
+  | .callT tmo now => s.callT tmo now
   | .poll k now hs => (s.pollK k now hs).1
   | .drop k => s.dropK k
 
@@ -136,12 +145,66 @@ def Svc.run (s : Svc) (ops : List Op) : Svc := ops.foldl Svc.step s
 /-- the `Service` contract: `call` only while the gate is open -/
 def Svc.contractOk (s : Svc) : Op → Prop
   | .call _ => s.count < s.cap
+  | .callT _ _ => s.count < s.cap
   | _ => True
 
 /-- an op history that respects the contract at every step -/
 def Svc.Respects (s : Svc) : List Op → Prop
   | [] => True
   | op :: ops => s.contractOk op ∧ (s.step op).Respects ops
+
+/-! ## Acceptor factories: the configuration surface (`Acceptor::{new, set_handshake_timeout, clone}`,
+`ServiceFactory::new_service`)
+
+The TLS configuration (`ServerConfig` / `SslAcceptor`) is opaque here; what the property speaks about
+is the handshake timeout a service ends up with and the counter it gates on.  The six acceptor
+flavours (rustls 0.20–0.23, OpenSSL, native-tls) have the same shape. -/
+
+/-- `Acceptor` -/
+structure Acceptor where
+  tmo : Nat
+deriving DecidableEq, Repr
+
+/-- `Acceptor::new`: `handshake_timeout: DEFAULT_TLS_HANDSHAKE_TIMEOUT` -/
+def Acceptor.new : Acceptor := { tmo := Src.tlsDefaultHandshakeTimeoutMs }
+/-- `Acceptor::set_handshake_timeout` -/
+def Acceptor.setTimeout (a : Acceptor) (t : Nat) : Acceptor := { a with tmo := t }
+/-- `impl Clone for Acceptor` (hand-written in every flavour): every field is copied -/
+def Acceptor.clone (a : Acceptor) : Acceptor := { tmo := a.tmo }
+/-- `ServiceFactory::new_service`: the service takes the factory's timeout as it is at that moment (and
+a clone of the thread's counter handle); result = the service's handshake timeout -/
+def Acceptor.newService (a : Acceptor) : Nat := a.tmo
+
+/-- the factories and services of one thread, in order of creation -/
+structure Cfg where
+  facs : List Acceptor := []
+  /-- handshake timeouts of the services built so far -/
+  svcs : List Nat := []
+deriving Repr
+
+inductive FOp where
+  | new
+  | set (f t : Nat)
+  | clone (f : Nat)
+  | svc (f : Nat)
+deriving Repr
+
+def Cfg.step (c : Cfg) : FOp → Cfg
+  | .new => { c with facs := c.facs ++ [Acceptor.new] }
+  | .set f t =>
+    match c.facs[f]? with
+    | some a => { c with facs := c.facs.set f (a.setTimeout t) }
+    | none => c
+  | .clone f =>
+    match c.facs[f]? with
+    | some a => { c with facs := c.facs ++ [a.clone] }
+    | none => c
+  | .svc f =>
+    match c.facs[f]? with
+    | some a => { c with svcs := c.svcs ++ [a.newService] }
+    | none => c
+
+def Cfg.run (c : Cfg) (ops : List FOp) : Cfg := ops.foldl Cfg.step c
 
 /-! ## Environment of one connection (assumption about the TLS libraries, tied by T2) -/
 
